@@ -22,7 +22,7 @@ def main(argv):
     template = open(os.path.join(HERE, 'tools', 'prompts', kind + '.txt')).read()
     base = os.path.join('/tmp', rnd)
     os.makedirs(base, exist_ok=True)
-    short = {'breaking': 'brk', 'benign': 'ben'}[kind]
+    short = {'breaking': 'brk', 'breaking2': 'brk', 'benign': 'ben'}[kind]
     for pid in ids:
         d = props[pid]
         wt = os.path.join(base, '%s_%s' % (short, pid))
